@@ -1356,20 +1356,40 @@ func (r *runner) call(b *cfg.Block, c *ast.CallExpr, st *State, valueUsed bool) 
 		r.origins[c] = or
 	}
 	or.Tags = r.classify(c, callee)
+	var someTags []Tag // events of some, not all, possible callees of a table call: may-events, reported to the rule
 	if callee == nil && r.fi != nil && len(or.Tags) == 0 {
-		// a function value taken out of a dispatch table: what any of the table's functions would be
-		seenTag := map[Tag]bool{}
-		for _, t := range r.sp.W.TableTargets(r.fi, c) {
+		// a function value taken out of a dispatch table: an event of every function of the table has happened,
+		// an event of some of them may have
+		targets := r.sp.W.TableTargets(r.fi, c)
+		count := map[Tag]int{}
+		var order []Tag
+		for _, t := range targets {
+			seenTag := map[Tag]bool{}
 			for _, tg := range r.classify(c, t) {
 				if !seenTag[tg] {
 					seenTag[tg] = true
-					or.Tags = append(or.Tags, tg)
+					if count[tg] == 0 {
+						order = append(order, tg)
+					}
+					count[tg]++
 				}
 			}
 		}
+		for _, tg := range order {
+			if count[tg] == len(targets) {
+				or.Tags = append(or.Tags, tg)
+			} else {
+				someTags = append(someTags, tg)
+			}
+		}
 	}
-	if r.record && len(or.Tags) > 0 {
-		r.res.Calls = append(r.res.Calls, &CallPoint{Call: c, Callee: callee, Tags: or.Tags, Before: st.copy(), InLoop: r.inLoop[b], Fn: r.fi})
+	if r.record && len(or.Tags)+len(someTags) > 0 {
+		r.res.Calls = append(r.res.Calls, &CallPoint{Call: c, Callee: callee, Tags: append(append([]Tag{}, or.Tags...), someTags...), Before: st.copy(), InLoop: r.inLoop[b], Fn: r.fi})
+	}
+	for _, t := range someTags {
+		if !strings.HasPrefix(t, "-") && !strings.HasPrefix(t, "#") {
+			st.May[t] = true
+		}
 	}
 	for _, t := range or.Tags {
 		r.addTag(st, t)
